@@ -781,6 +781,10 @@ func (c *codegen) convertFuncDecl(file ast.Node, decl *ast.FuncDecl, pkg *types.
 		emit.Opcodes(c.prog.BinWriter, opcode.RET)
 	}
 
+	if isInit || isDeploy {
+		// `return` statements of the body jump here.
+		c.setLabel(f.label)
+	}
 	if isInit {
 		c.initVariables = append(c.initVariables, f.variables...)
 	} else if isDeploy {
@@ -1105,7 +1109,13 @@ func (c *codegen) Visit(node ast.Node) ast.Visitor {
 		returnTokenEnd := n.Return + token.Pos(len(token.RETURN.String()))
 		c.saveSequencePoint(n.Return, returnTokenEnd)
 		if len(c.pkgInfoInline) == 0 {
-			emit.Opcodes(c.prog.BinWriter, opcode.RET)
+			if isInitFunc(c.scope.decl) || isDeployFunc(c.scope.decl) {
+				// The body is a part of a bigger method (_initialize or _deploy),
+				// other init() functions follow it.
+				emit.Jmp(c.prog.BinWriter, opcode.JMPL, c.scope.label)
+			} else {
+				emit.Opcodes(c.prog.BinWriter, opcode.RET)
+			}
 		} else {
 			emit.Jmp(c.prog.BinWriter, opcode.JMPL, c.inlineContext[len(c.inlineContext)-1].returnLabel)
 		}
